@@ -153,7 +153,7 @@ def theorem_names(prop_file):
     return [prefix + m.group(1) for m in re.finditer(r'^\s*(?:protected\s+|private\s+)?theorem\s+([^\s:({\[]+)', txt, re.M)]
 
 
-def lean_gate(pid, required):
+def lean_gate(pid, required, tier='quick'):
     """Regenerate Gen/, build the property module and the driver, audit axioms.
     Returns dict(ok, obligations, discharged, failures[list of str], gen_status, log)."""
     import py2lean
@@ -213,6 +213,13 @@ def lean_gate(pid, required):
                 else:
                     res['discharged'] += 1
             res['axioms'] = {n: sorted(v) for n, v in seen.items()}
+    if tier == 'thorough' and not res['failures']:
+        # independent re-check of the compiled property module (and everything it imports from this project)
+        rc, out = _run(['lake', 'env', 'leanchecker', 'ZepidVerif.Props.%s' % pid])
+        res['leanchecker'] = 'ok' if rc == 0 else 'FAILED'
+        if rc != 0:
+            res['failures'].append('leanchecker rejected ZepidVerif.Props.%s' % pid)
+            res['log'] += out[-2000:]
     res['ok'] = not res['failures']
     res['wall_s'] = round(time.time() - t0, 2)
     return res
@@ -375,7 +382,7 @@ class Check:
             'k_failures': len(self.k_fail), 'd_failures': len(self.d_fail),
             'known_findings_hit': sorted(self.known_hits), 'discards': self.discards,
             'input_distribution': self.dist, 'translator': lean.get('gen_status'),
-            'lean_failures': lean['failures'], 'lean_wall_s': lean.get('wall_s'),
+            'lean_failures': lean['failures'], 'lean_wall_s': lean.get('wall_s'), 'leanchecker': lean.get('leanchecker', 'not run (thorough tier only)'),
             'theorems': sorted((lean.get('axioms') or {}).keys()),
             'exhaustive': bool(self.extra.get('exhaustive', False)),
         }
